@@ -827,10 +827,6 @@ func (cpu *CPU) Step() (int, bool) {
 
 	//cycles := cpu.Cycles
 
-	if cb, ok := cpu.OnPC[uint32(cpu.RK)<<16|uint32(cpu.PC)]; ok {
-		cb()
-	}
-
 	switch cpu.Interrupt {
 	case interruptNMI:
 		cpu.nmi()
@@ -838,6 +834,12 @@ func (cpu *CPU) Step() (int, bool) {
 		cpu.irq()
 	}
 	cpu.Interrupt = interruptNone
+
+	// after a pending interrupt has been vectored, so that the callback belongs to
+	// the address the opcode is actually fetched from:
+	if cb, ok := cpu.OnPC[uint32(cpu.RK)<<16|uint32(cpu.PC)]; ok {
+		cb()
+	}
 
 	cpu.PPC = cpu.PC
 	cpu.PRK = cpu.RK
